@@ -505,6 +505,7 @@ impl Wal {
 
         let offset = file.metadata()?.len();
         file.seek(SeekFrom::End(0))?;
+        #[cfg(nervusdb_verif)]
         let path = &self.path;
         let written = (|| -> Result<()> {
             #[cfg(nervusdb_verif)]
